@@ -238,6 +238,16 @@ impl MT107 {
             });
         }
 
+        // Sequence B is mandatory: without a transaction the message is incomplete
+        if transactions.is_empty() {
+            return Err(crate::errors::ParseError::MissingRequiredField {
+                field_tag: "21".to_string(),
+                field_name: "21".to_string(),
+                message_type: "107".to_string(),
+                position_in_block4: Some(parser.position()),
+            });
+        }
+
         // Parse Sequence C - Settlement Details
         // Note: duplicates remain enabled to allow parsing field 32B again
         let settlement_field_32b = parser.parse_field::<Field32B>("32B")?;
